@@ -183,18 +183,38 @@ def check_tables(rep, prog, m):
     sent = None
     flag = None
     for n in own_nodes(fr):
-        if isinstance(n, ast.Compare) and isinstance(n.ops[0], ast.NotIn) and isinstance(n.comparators[0], (ast.List, ast.Tuple, ast.Set)):
+        if isinstance(n, ast.Compare) and isinstance(n.ops[0], (ast.NotIn, ast.In)) and isinstance(n.comparators[0], (ast.List, ast.Tuple, ast.Set)) \
+                and str_consts(n.comparators[0]) and (sent is None or isinstance(n.ops[0], ast.NotIn) or isinstance(getattr(n, '_parent', None), (ast.While, ast.If, ast.BoolOp))):
+            # the test that ends the run of dimensions: `token not in [...]` of a while loop, or `token in (...)` guarding a break
             sent = set(str_consts(n.comparators[0]))
         if isinstance(n, ast.Assign) and isinstance(n.targets[0], ast.Name) and n.targets[0].id == 'folded' and isinstance(n.value, ast.Compare):
             flag = n.value
     okr = sent == {'folded', 'unfolded'} and flag is not None and isinstance(flag.ops[0], ast.Eq) and str_consts(flag) == ['folded']
     rep.ob('R-TPL', 'from_file folding token', bool(okr), 'sentinel tokens %s; folded = %s' % (sorted(sent) if sent else None, ast.unparse(flag) if flag is not None else None),
            rel, fr.lineno, what="reads ints up to 'folded'/'unfolded'; folded iff token == 'folded'")
-    old = [n for n in own_nodes(fr) if isinstance(n, ast.If) and isinstance(n.test, ast.BoolOp) and {'folded', 'unfolded'} <= set(str_consts(n.test))]
-    okold = bool(old) and any(isinstance(x, ast.Assign) and ast.unparse(x.targets[0]) == 'folded' and ast.unparse(x.value) == 'False' for x in old[0].body) \
-        and any(isinstance(x, ast.Assign) and ast.unparse(x.targets[0]) == 'pop_ids' and ast.unparse(x.value) == 'None' for x in old[0].body)
-    rep.ob('R-TPL', 'from_file pre-1.3 header', okold, 'header without folding token: folded=False, pop_ids=None', rel, old[0].lineno if old else fr.lineno,
-           what='pre-1.3 header handled')
+    old = [n for n in own_nodes(fr) if isinstance(n, ast.If) and {'folded', 'unfolded'} <= set(str_consts(n.test)) and n.orelse and not isinstance(getattr(n, '_parent', None), (ast.For, ast.While))]
+
+    def plain_assignments(stmts):
+        out = {}
+        for x in stmts:
+            if isinstance(x, ast.Assign) and len(x.targets) == 1:
+                t = x.targets[0]
+                if isinstance(t, ast.Name):
+                    out[t.id] = ast.unparse(x.value)
+                elif isinstance(t, ast.Tuple) and isinstance(x.value, ast.Tuple) and len(t.elts) == len(x.value.elts):
+                    for a, b in zip(t.elts, x.value.elts):
+                        if isinstance(a, ast.Name):
+                            out[a.id] = ast.unparse(b)
+        return out
+    okold = False
+    if old:
+        # the branch for a header without folding token: by the form of the test, the body (`... not in ...`, isdisjoint) or the else
+        tt = ast.unparse(old[0].test)
+        neg = ('not in' in tt or 'isdisjoint' in tt) and not tt.startswith('not ')
+        br = plain_assignments(old[0].body if neg else old[0].orelse)
+        okold = br.get('folded') == 'False' and br.get('pop_ids') == 'None'
+    rep.ob('R-TPL', 'from_file pre-1.3 header', okold, 'header without folding token: folded=False, pop_ids=None' + ('' if old else ': the test for the folding token was not found'), rel,
+           old[0].lineno if old else fr.lineno, what='pre-1.3 header handled')
     # labels: written quoted, parsed by splitting on the quote character
     lab = [ev for (k, ev, g, st) in events if k == 'write' and isinstance(ev, ast.BinOp) and isinstance(ev.op, ast.Mod)
            and isinstance(ev.left, ast.Constant) and '"' in str(ev.left.value)]
@@ -262,6 +282,14 @@ def check_tables(rep, prog, m):
                what='%s line has prod(shape) entries, C order' % var)
     opt = [n for n in own_nodes(fr) if isinstance(n, ast.If) and ast.unparse(n.test) in ('not maskline', 'maskline == \'\'')]
     oko = bool(opt) and any(isinstance(x, ast.Assign) and ast.unparse(x.targets[0]) == 'mask' and ast.unparse(x.value) == 'None' for x in opt[0].body)
+    if not opt:
+        # `mask = None` as the default, overwritten only when there is a mask line
+        blk = fr.body
+        for i, x in enumerate(blk):
+            if isinstance(x, ast.If) and ast.unparse(x.test) in ('maskline', "maskline != ''", 'len(maskline) > 0') and not x.orelse and i > 0:
+                prev = blk[i - 1]
+                if isinstance(prev, ast.Assign) and ast.unparse(prev) == 'mask = None' and any(isinstance(y, ast.Assign) and ast.unparse(y.targets[0]) == 'mask' for y in x.body):
+                    opt, oko = [x], True
     rep.ob('R-TPL', 'from_file optional mask', oko, 'missing mask line (pre-1.3 format) gives mask=None', rel, opt[0].lineno if opt else fr.lineno,
            what='mask line optional')
     # construction
